@@ -5,7 +5,7 @@
 //! `--session FILE [--opt N]`: replay a hand-written session.  Steps are separated by a line
 //! `=====`; a step `@call NAME ARG` / `@cached NAME ARG` is a host call (aelys_driver::
 //! call_function / get_function + call), `@frames` prints the frame-stack depth, anything else is
-//! a REPL input.  One line per step: index, class, escaped output, value, frames left, detail.
+//! a REPL input (`@callx` / `@cachedx`: the host call passes one argument too many).  One line per step: index, class, escaped output, value, frames left, detail.
 //!
 //! `--seed S --n N`: generated sessions, one line per session:
 //!   CASE \t seed \t <Coq term: list op> \t <observed model observations> \t <real steps> \t <oracle steps> \t <escaped source>
@@ -87,6 +87,8 @@ mod imp {
     pub enum Step {
         Input { stmts: Vec<Stmt>, expect: Expect },
         Host { f: String, arg: i64, cached: bool, extra: bool },
+        /// the host binds a global by name: VM::set_global
+        HostSet { name: String, val: i64 },
     }
     #[derive(Clone, Copy, Debug, PartialEq)]
     pub enum Expect { Ok, CompileError, RuntimeError }
@@ -379,6 +381,10 @@ mod imp {
                 let arg = arg_of(&f); return Step::Host { f, arg, cached: self.rng.chance(1, 3), extra: self.rng.chance(1, 8) };
             }
             if r < 17 { return Step::Host { f: self.fresh("nosuch"), arg: 1, cached: self.rng.chance(1, 2), extra: false }; }
+            if r < 22 {
+                let mv = self.int_vars(true);
+                if !mv.is_empty() { let name = self.pick(&mv); return Step::HostSet { name, val: self.rng.range_i64(-50, 50) }; }
+            }
             let mut defined_here = HashSet::new();
             let mut assigned_here = HashSet::new();
             let n = 1 + self.rng.below(4) as usize;
@@ -591,6 +597,8 @@ mod imp {
         let mut kinds: HashMap<&'static str, usize> = HashMap::new();
         let mut stale_entry = false;
         let mut sx = SessX::new();
+        let mut loaded_mods: HashSet<usize> = HashSet::new();   // user modules whose top level has run in this session
+        let mut old_model_off = false;                          // Model/GlobalsSync.v has no by-name set: its query ends there
         // the session's working directory: `needs <module>` in a REPL input is resolved relative to the current
         // directory (driver/src/api/repl.rs: cwd.join("repl.aelys"))
         let dir = std::env::temp_dir().join(format!("hx_repl_{}_{}", std::process::id(), seed));
@@ -610,6 +618,13 @@ mod imp {
                     if stmts.iter().any(|s| matches!(s, Stmt::PrintExpr { .. })) { *kinds.entry("input-uses-imported-name").or_insert(0) += 1; }
                     let src = render(stmts);
                     let before = g.o.clone();
+                    // the top-level function of a module is garbage as soon as the module has run; it is looked at below
+                    // (its layout), so no collection while an input that loads a user module runs
+                    let loads_module = stmts.iter().any(|s| matches!(s, Stmt::Needs { module: Some(_), .. }));
+                    if loads_module { aelys_runtime::verif::gc_mode_set(1, 0); }
+                    // function objects alive before the input (heap indices and buffer addresses are reused after a collection,
+                    // so "new" is decided against what is alive right now, not against everything ever seen)
+                    seen_tops = live_functions(&vm).into_iter().map(|(i, a, _)| (i, a)).collect();
                     r = repl_input(&mut vm, &src, opt);
                     o = g.o.input(stmts, *expect);
                     g.prune_dangling();
@@ -620,12 +635,28 @@ mod imp {
                     let new_tops: Vec<(usize, usize)> = live_functions(&vm).into_iter().filter(|(i, a, n)| (n.is_none() || g.modules.iter().any(|m| Some(&m.name) == n.as_ref())) && !seen_tops.contains(&(*i, *a))).map(|(i, a, _)| (i, a)).collect();
                     for c in &new_tops { seen_tops.insert(*c); }
                     let mut tops: Vec<Function> = new_tops.iter().filter_map(|(i, _)| function_at(&vm, *i)).collect();
+                    if loads_module { aelys_runtime::verif::gc_mode_set(0, 0); }
                     // session model: the module units (recognised by their nested functions) with their by-name export registration
                     let mut s_imports: Vec<String> = Vec::new();
                     for st in stmts {
                         if let Stmt::Needs { module: Some((mi, form, alias)), .. } = st {
                             let m = &g.modules[*mi];
                             let first = m.fns[0].0.clone();
+                            let export_list = |names: &mut Names| -> String {
+                                let all: Vec<String> = m.fns.iter().map(|x| x.0.clone()).chain(m.consts.iter().map(|x| x.0.clone())).collect();
+                                let mut ex: Vec<(String, String)> = Vec::new();
+                                match form {
+                                    0 => for n in &all { ex.push((format!("{}::{}", m.name, n), n.clone())); ex.push((n.clone(), n.clone())); },
+                                    1 => for n in &all { ex.push((format!("{}::{}", alias, n), n.clone())); },
+                                    _ => { ex.push((alias.clone(), alias.clone())); ex.push((m.consts[0].0.clone(), m.consts[0].0.clone())); }
+                                }
+                                ex.iter().map(|(a, b)| format!("({}%N, {}%N)", names.id(a), names.id(b))).collect::<Vec<_>>().join("; ")
+                            };
+                            if loaded_mods.contains(mi) {
+                                // loaded by an earlier input: its top level does not run again, the exports are registered
+                                s_imports.push(format!("mkMU false [] [] [{}]", export_list(&mut names)));
+                                continue;
+                            }
                             match tops.iter().position(|f| f.nested_functions.iter().any(|n| n.name.as_deref() == Some(first.as_str()))) {
                                 Some(p) => {
                                     let mt = tops.remove(p);
@@ -639,17 +670,10 @@ mod imp {
                                         }
                                     }
                                     for (c, v) in &m.consts { body.push(format!("ISet {}%N (VInt {})", names.id(c), zc(*v))); }
-                                    let all: Vec<String> = m.fns.iter().map(|x| x.0.clone()).chain(m.consts.iter().map(|x| x.0.clone())).collect();
-                                    let mut ex: Vec<(String, String)> = Vec::new();
-                                    match form {
-                                        0 => for n in &all { ex.push((format!("{}::{}", m.name, n), n.clone())); ex.push((n.clone(), n.clone())); },
-                                        1 => for n in &all { ex.push((format!("{}::{}", alias, n), n.clone())); },
-                                        _ => { ex.push((alias.clone(), alias.clone())); ex.push((m.consts[0].0.clone(), m.consts[0].0.clone())); }
-                                    }
-                                    let exs: Vec<String> = ex.iter().map(|(a, b)| format!("({}%N, {}%N)", names.id(a), names.id(b))).collect();
-                                    s_imports.push(format!("mkMU {} [{}] [{}]", lay, body.join("; "), exs.join("; ")));
+                                    s_imports.push(format!("mkMU true {} [{}] [{}]", lay, body.join("; "), export_list(&mut names)));
+                                    loaded_mods.insert(*mi);
                                 }
-                                None => { if std::env::var("HX_DEBUG").is_ok() { eprintln!("new fns: {:?}", live_functions(&vm).into_iter().map(|(i, _, n)| (i, n, function_at(&vm, i).map(|f| f.nested_functions.iter().map(|x| x.name.clone()).collect::<Vec<_>>()))).collect::<Vec<_>>()); }
+                                None => { if std::env::var("HX_DEBUG").is_ok() { eprintln!("input {:?} class {} detail {}", srcs.last(), r.class, r.detail.chars().take(200).collect::<String>()); eprintln!("new fns: {:?}", live_functions(&vm).into_iter().map(|(i, _, n)| (i, n, function_at(&vm, i).map(|f| f.nested_functions.iter().map(|x| x.name.clone()).collect::<Vec<_>>()))).collect::<Vec<_>>()); }
                                           sx.fail("the module's top-level function was not found".into()) }
                             }
                         }
@@ -733,6 +757,17 @@ mod imp {
                     }
                     sx.steps.push(format!("SInput [{}] {} {} [{}] [] []", s_imports.join("; "), *expect != Expect::CompileError, s_ltop, s_body.join("; ")));
                 }
+                Step::HostSet { name, val } => {
+                    *kinds.entry("host-set-global").or_insert(0) += 1;
+                    srcs.push(format!("@set {} {}\n", name, val));
+                    sx.steps.push(format!("SSet {}%N (VInt {})", names.id(name), zc(*val)));
+                    vm.set_global(name.clone(), Value::int(*val));
+                    let m = g.o.vars.get(name).map(|x| x.1).unwrap_or(true);
+                    g.o.vars.insert(name.clone(), (Val::Int(*val), m));
+                    r = StepOut { class: "ok".into(), output: String::new(), value: String::new(), detail: String::new(), frames: vm.verif_frames_len() };
+                    o = OStep { class: "ok", output: String::new(), value: String::new() };
+                    old_model_off = true;
+                }
                 Step::Host { f, arg, cached, extra } => {
                     sx.steps.push(format!("SHost {}%N {}%N VNull", names.id(f), if *extra { 2 } else { 1 }));
                     if *extra { *kinds.entry("host-call-wrong-arity").or_insert(0) += 1; }
@@ -773,8 +808,8 @@ mod imp {
             for v in &vars { ops.push(format!("OReadMap {}", names.id(v))); ob.push(read_map(&vm, v)); }
             ops.push("OFrames".into()); ob.push(r.frames as i64);
             let failed_flag = if class3(&r.class) == "runtime-error" && !ops.is_empty() && ops.iter().any(|x| x == "OFail" || x.starts_with("OHostCall") || x.starts_with("OExecute")) { 1 } else { 0 };
-            if !stale_entry { q_steps.push(format!("[{}]", ops.join("; "))); }
-            if !stale_entry { obs_steps.push(format!("[{}]", std::iter::once(failed_flag.to_string()).chain(std::iter::once("(-7)".to_string())).chain(ob.iter().map(|x| zc(*x))).collect::<Vec<_>>().join("; "))); }
+            if !stale_entry && !old_model_off { q_steps.push(format!("[{}]", ops.join("; "))); }
+            if !stale_entry && !old_model_off { obs_steps.push(format!("[{}]", std::iter::once(failed_flag.to_string()).chain(std::iter::once("(-7)".to_string())).chain(ob.iter().map(|x| zc(*x))).collect::<Vec<_>>().join("; "))); }
             real_steps.push(format!("{}|{}|{}", class3(&r.class), esc(&r.output), if matches!(step, Step::Host { .. }) { esc(&r.value) } else { String::new() }));
             oracle_steps.push(format!("{}|{}|{}", match o.class { "ok" => "ok", "compile-error" => "compile-error", _ => "runtime-error" }, esc(&o.output), esc(&o.value)));
             let same = real_steps.last() == oracle_steps.last() || (matches!(step, Step::Input { .. }) && class3(&r.class) == "ok" && o.class == "ok" && r.output == o.output);
@@ -803,11 +838,19 @@ fn main() {
             let mut vm = aelys_driver::new_vm_with_config(Default::default(), Vec::new()).unwrap();
             for (i, p) in text.split("\n=====\n").enumerate() {
                 let t = p.trim();
-                let r = if let Some(rest) = t.strip_prefix("@call ").or_else(|| t.strip_prefix("@cached ")) {
+                let r = if let Some(rest) = t.strip_prefix("@call ").or_else(|| t.strip_prefix("@cached ")).or_else(|| t.strip_prefix("@callx ")).or_else(|| t.strip_prefix("@cachedx ")) {
+                    // @callx / @cachedx: one argument too many
                     let mut it = rest.split_whitespace();
                     let name = it.next().unwrap_or("");
                     let a: i64 = it.next().and_then(|x| x.parse().ok()).unwrap_or(0);
-                    host_call(&mut vm, name, a, t.starts_with("@cached"))
+                    host_call_n(&mut vm, name, a, t.starts_with("@cached"), t.starts_with("@callx") || t.starts_with("@cachedx"))
+                } else if let Some(rest) = t.strip_prefix("@set ") {
+                    // the host binds a global by name (VM::set_global)
+                    let mut it = rest.split_whitespace();
+                    let name = it.next().unwrap_or("").to_string();
+                    let a: i64 = it.next().and_then(|x| x.parse().ok()).unwrap_or(0);
+                    vm.set_global(name, aelys_runtime::Value::int(a));
+                    StepOut { class: "ok".into(), output: String::new(), value: String::new(), detail: String::new(), frames: vm.verif_frames_len() }
                 } else if t == "@frames" {
                     StepOut { class: "frames".into(), output: String::new(), value: String::new(), detail: String::new(), frames: vm.verif_frames_len() }
                 } else { repl_input(&mut vm, p, opt) };
